@@ -192,10 +192,17 @@ def sconcat(ex, parts):
             # of it AS a path (open, join, makedirs ...) is unsupported, and as a message it carries no obligation
             return SStr([NameAtom(Opaque("text_mentioning_a_path", "str"), nows=False)])
         r = None
-        for p in parts:
-            if p == "":
-                continue
-            r = p if r is None else path_concat(ex, r, p)
+        try:
+            for p in parts:
+                if p == "":
+                    continue
+                if isinstance(r, str) and isinstance(p, str):
+                    r = r + p
+                    continue
+                r = p if r is None else path_concat(ex, r, p)
+        except Unsupported:
+            # a text built around a path in a way the path algebra does not express (a sentence naming the path): opaque, as above
+            return SStr([NameAtom(Opaque("text_mentioning_a_path", "str"), nows=False)])
         return "" if r is None else r
     isb = any(isinstance(p, SStr) and p.isbytes for p in parts)
     return back(SStr([norm(p) for p in parts], isbytes=isb))
